@@ -1721,7 +1721,37 @@ class Evaluator:
                     return TOP
                 return Text(out) if not all(isinstance(x, str) for x in out) else "".join(out)
             if name == "format":
-                return TOP
+                # "{}", "{0}", "{name}" fields without conversion or format spec, filled with constants or labels
+                import string as _string
+
+                parts, auto = [], 0
+                try:
+                    for lit, field, spec, conv in _string.Formatter().parse(recv):
+                        if lit:
+                            parts.append(lit)
+                        if field is None:
+                            continue
+                        if spec or conv or "." in field or "[" in field:
+                            return TOP
+                        if field == "":
+                            val, auto = args[auto], auto + 1
+                        elif field.isdigit():
+                            val = args[int(field)]
+                        else:
+                            val = kwargs[field]
+                        if isinstance(val, (Sym, Text)):
+                            parts.extend(_parts(val))
+                        elif isinstance(val, (str, int)) and not isinstance(val, bool):
+                            parts.append(str(val))
+                        else:
+                            return TOP
+                except (IndexError, KeyError):
+                    raise Raised("IndexError", node)
+                except ValueError:
+                    return TOP
+                if all(isinstance(x, str) for x in parts):
+                    return "".join(parts)
+                return Text(parts)  # like an f-string: the label is embedded, not inspected
             if name in ("encode", "format_map", "translate", "maketrans"):
                 return TOP
             if not hasattr(str, name):
